@@ -11,10 +11,11 @@ def build_cli():
     # one build directory for /repo and one shared by all scratch worktrees (selftests, seed tests): disk stays bounded
     tdir = os.path.join(E.BUILD, "target-cli" if os.path.realpath(E.REPO) == "/repo" else "target-cli-scratch")
     env = dict(os.environ, CARGO_NET_OFFLINE="true", CARGO_TARGET_DIR=tdir)
-    p = subprocess.run(["cargo", "build", "--offline", "-q", "-p", "circomspect"], cwd=E.REPO, env=env, capture_output=True, text=True)
+    # the release profile: what `cargo install` gives a user (a debug build overflows its stack on far shallower input)
+    p = subprocess.run(["cargo", "build", "--release", "--offline", "-q", "-p", "circomspect"], cwd=E.REPO, env=env, capture_output=True, text=True)
     if p.returncode != 0:
         raise RuntimeError("the CLI does not build: " + p.stderr[-1500:])
-    return os.path.join(tdir, "debug", "circomspect")
+    return os.path.join(tdir, "release", "circomspect")
 
 
 def run_cli(exe, args, cwd, timeout=60):
@@ -784,6 +785,24 @@ def totality_cases(tier):
         ("allow-unknown-id", T("var unused = 1;\ny <-- x;"), ["--allow", "CS9999", "--allow", "P0000"]),
         ("library-directory-missing", T("y <== x;"), ["-L", "/nonexistent-dir-for-test"]),
     ]
+    # size and nesting
+    cases += [
+        ("array-literal-5000", T("var a[5000] = [" + ", ".join(str(i % 7) for i in range(5000)) + "];\ny <== x + a[3];"), []),
+        ("array-dimension-huge", T("var a[100000000]; signal s[4294967296];\ny <== x;"), []),
+        ("block-nesting-500", T("{" * 500 + " y <== x; " + "}" * 500), []),
+        ("product-chain-300", T("y <-- " + " * ".join(["x"] * 300) + ";"), []),
+        ("right-nested-sum-300", T("y <== " + "".join("x + (" for _ in range(300)) + "x" + ")" * 300 + ";"), []),
+        ("thousand-signals", T("".join(f"signal s{i}; s{i} <== x + {i};\n" for i in range(1000)) + "y <== s999;"), []),
+        ("thousand-statements-in-loop-nest", T("var v = 0;\nfor (var i = 0; i < 3; i++) {\n" + "".join(f"v += {i};\n" for i in range(1000)) + "}\ny <== x + v;"), []),
+        ("hundred-components", P + "template A() { signal input in; signal output out; out <== in; }\ntemplate Main() { signal input x; signal output y;\n" + "".join(f"component c{i} = A(); c{i}.in <== x;\n" for i in range(100)) + "y <== c99.out; }\ncomponent main = Main();\n", []),
+        ("mutual-recursion", P + "function f(a) { return g(a) + 1; }\nfunction g(a) { return f(a) + 1; }\ntemplate Main() { signal input x; signal output y; y <== x + f(1); }\ncomponent main = Main();\n", []),
+        ("nested-ternary-right", T("var v = x == 0 ? 1 : x == 1 ? 2 : x == 2 ? 3 : 4;\ny <== x + v;"), []),
+        ("operator-zoo", T("var v = ((1 \\ 2) ** 3 >> 1 << 2 & 7 | 8 ^ 9) % 5 + (-1) - (~2) * (!0);\ny <== x + v;"), []),
+        ("log-empty-and-strings", T('log(); log("a", "b", x); log("");\ny <== x;'), []),
+        ("while-true-like", T("var i = 0; while (1) { i += 1; }\ny <== x + i;"), []),
+        ("for-without-braces-nested", T("var v = 0; for (var i = 0; i < 2; i++) for (var j = 0; j < 2; j++) if (i == j) v += 1; else v -= 1;\ny <== x + v;"), []),
+        ("signal-array-in-loop-bounds", T("signal s[3]; var n = 3; for (var i = 0; i < n; i++) { s[i] <== x * i; } y <== s[n - 1];"), []),
+    ]
     # lexer-level and byte-level inputs (bytes objects are written verbatim)
     cases += [
         ("hex-without-digits", T("var v = 0x;\ny <== x + v;"), []),
@@ -845,7 +864,7 @@ def suite_totality(exe, tier, seed):
         shutil.rmtree(d, ignore_errors=True)
     return {"unit": "e2e-totality", "evaluations": evals, "distinct_nontrivial": nontrivial, "exhaustive": False,
             "rule": "the real CLI on grammar-valid but unusual programs: it terminates within 60 s with exit status 0 or 1, prints its summary line, and neither panics nor overflows its stack",
-            "bound": "templates with Circomlib's names and every arity 0..3 under the curves; 27 structural oddities, 57 grammar-valid programs with semantic errors (undeclared / duplicate names, wrong arities, anonymous components and tuples in every unusual place, misplaced constructs) 26 shapes aimed at the individual passes and options (divisions and comparisons of signals, LessThan / Num2Bits wiring, component matrices, functions without return, all compound operators, 200 findings, --allow / --level / -L oddities) and 21 lexer- and byte-level inputs (long and non-ASCII string literals in log, hex prefix without digits, empty file, invalid UTF-8, NUL bytes, BOM, unbalanced brackets, 200 000-character lines, non-ASCII text at error positions; empty bodies, deep nesting of ifs / loops / parentheses / ternaries, 2000-term sums, 200-fold unary chains, 400-digit literals in shifts and powers, division by constant zero, zero-sized arrays, 300 templates, 3000-character identifiers, custom templates)",
+            "bound": "templates with Circomlib's names and every arity 0..3 under the curves; 27 structural oddities, 57 grammar-valid programs with semantic errors (undeclared / duplicate names, wrong arities, anonymous components and tuples in every unusual place, misplaced constructs) 15 size / nesting stress shapes (5000-element array literals, 500 nested blocks, 300-factor products, 1000 signals, 100 components, mutual recursion), 26 shapes aimed at the individual passes and options (divisions and comparisons of signals, LessThan / Num2Bits wiring, component matrices, functions without return, all compound operators, 200 findings, --allow / --level / -L oddities) and 21 lexer- and byte-level inputs (long and non-ASCII string literals in log, hex prefix without digits, empty file, invalid UTF-8, NUL bytes, BOM, unbalanced brackets, 200 000-character lines, non-ASCII text at error positions; empty bodies, deep nesting of ifs / loops / parentheses / ternaries, 2000-term sums, 200-fold unary chains, 400-digit literals in shifts and powers, division by constant zero, zero-sized arrays, 300 templates, 3000-character identifiers, custom templates)",
             "samples": samples, "violations": viol}
 
 
